@@ -51,7 +51,7 @@ game_query_mod!(
 game_query_mod!(
     armareforger,
     "Arma Reforger",
-    Engine::new(0),
+    Engine::new(1_874_880),
     17777,
     GatheringSettings {
         players: GatherToggle::Enforce,
